@@ -1193,6 +1193,8 @@ class DiskRefsContainer(RefsContainer):
         self._check_refname(name)
         self._check_refname(other)
         filename = self.refpath(name)
+        # The directory may have been removed as empty by remove_if_equals
+        ensure_dir_exists(os.path.dirname(filename))
         f = GitFile(filename, "wb")
         try:
             f.write(SYMREF + other + b"\n")
